@@ -216,9 +216,9 @@ def gen_rhs_term(rng, pool, depth=0):
     if r < 0.55:
         return ('v', rng.choice(pool), gen_idx(rng))
     if r < 0.68:
-        return ('p', rng.choice(pool + ['alpha', 'beta']), gen_idx(rng) if rng.random() < 0.2 else None)
+        return ('p', rng.choice(['alpha', 'beta', 'g'] + (pool if rng.random() < 0.12 else [])), gen_idx(rng) if rng.random() < 0.2 else None)
     if r < 0.76:
-        return ('e', rng.choice(pool + ['eps']), gen_idx(rng) if rng.random() < 0.2 else None)
+        return ('e', rng.choice(['eps', 'u'] + (pool if rng.random() < 0.12 else [])), gen_idx(rng) if rng.random() < 0.2 else None)
     if r < 0.86:
         return ('n', rng.choice(['1', '2', '0.5', '10']))
     if depth < 1:
@@ -230,8 +230,11 @@ def gen_ast(rng, n_eq=None, pool_size=None, safe=False):
     """list of equations (lhs term, [rhs terms], [operators]).  safe=True: arithmetic-only scripts whose evaluation cannot fail."""
     pool = rng.sample(POOL[:-2] if safe else POOL, pool_size or rng.choice([3, 4, 5, 6]))
     eqs = []
-    for _ in range(n_eq if n_eq is not None else rng.choice([1, 2, 2, 3, 4, 5])):
-        lhs = ('v', rng.choice(pool), rng.choice([None, None, None, None, 0, 1, -1, -2]) if not safe else None)
+    n_eq = n_eq if n_eq is not None else rng.choice([1, 2, 2, 3, 4, 5])
+    n_eq = min(n_eq, len(pool))
+    lhs_names = rng.sample(pool, n_eq) if rng.random() < 0.85 else [rng.choice(pool) for _ in range(n_eq)]
+    for q in range(n_eq):
+        lhs = ('v', lhs_names[q], rng.choice([None, None, None, None, 0, 1, -1, -2]) if not safe else None)
         k = rng.choice([1, 2, 2, 3, 4])
         if safe:
             rhs = []
